@@ -160,11 +160,33 @@ Definition get_url_after_hostname (url hostname : str) : str :=
                end in
   drop (start + length hostname) url.
 
+(* first offset of a byte of [cs] (str::find with a char predicate, ASCII) *)
+Fixpoint find_first_of (cs : list N) (s : str) : option nat :=
+  match s with
+  | [] => None
+  | x :: t => if memN x cs then Some O
+              else match find_first_of cs t with Some i => Some (S i) | None => None end
+  end.
+Definition AT : N := 64.
+(* where fn get_url_after_anchor starts looking for the request hostname: after "://" (or at 0),
+   and after the last '@' of the authority (= up to the first '/', '?' or '#') *)
+Definition host_search_start (url : str) : nat :=
+  let authority_start := match find_sub (bs "://") url with Some i => (i + 3)%nat | None => O end in
+  let rest := drop authority_start url in
+  let authority_len := match find_first_of [47; 63; 35] rest with
+                       | Some i => i
+                       | None => (length url - authority_start)%nat
+                       end in
+  match rfind_byte AT (take authority_len rest) with
+  | Some i => (authority_start + i + 1)%nat
+  | None => authority_start
+  end.
 (* fn get_url_after_anchor (byte level: `url.get(start..)` never fails on ASCII input) *)
 Definition get_url_after_anchor (url request_hostname : str) (anchor_end : nat) : str :=
   if Nat.eqb anchor_end 0 then url
   else
-    let rest := (length (get_url_after_hostname url request_hostname)
+    let hss := host_search_start url in
+    let rest := (length (get_url_after_hostname (drop hss url) request_hostname)
                  + (length request_hostname - anchor_end))%nat in
     if Nat.leb rest (length url) then drop (length url - rest) url else [].
 
@@ -284,10 +306,20 @@ Definition compile_regex (fs : list str) (ra la cr : bool) : compiled :=
 (* what verif_hooks::compile_regex_text prints (Display of CompiledRegex), given whether the
    regex crate accepted the patterns *)
 Definition SPACE_BAR_SPACE : str := [32; 124; 32].
-Definition compiled_text (c : compiled) (accepted : bool) : str :=
+(* [oks]: for each pattern, whether the regex crate compiles it.  A set that does not build is
+   rebuilt from its members that compile individually (all of them failing: parsing error). *)
+Fixpoint keep_ok (ps : list str) (oks : list bool) : list str :=
+  match ps, oks with
+  | p :: ps', b :: oks' => if b then p :: keep_ok ps' oks' else keep_ok ps' oks'
+  | _, _ => []
+  end.
+Definition compiled_text (c : compiled) (oks : list bool) : str :=
   match c with
   | MatchAll => DOTSTAR
-  | Pats ps => if accepted then join_with SPACE_BAR_SPACE ps else bs "ERROR"
+  | Pats ps => match keep_ok ps oks with
+               | [] => bs "ERROR"
+               | valid => join_with SPACE_BAR_SPACE valid
+               end
   end.
 
 (* token printer: the regex text a token list stands for *)
@@ -324,10 +356,13 @@ Section WithRegex.
   Variable re_ok : str -> bool.
   Variable re_match : str -> str -> bool.
 
+  (* one pattern: Compiled or RegexParsingError; several: a RegexSet of the members that compile
+     (if the set as a whole does not build it is rebuilt from those; none compiles: no match) *)
   Definition is_match (c : compiled) (s : str) : bool :=
     match c with
     | MatchAll => true
-    | Pats ps => forallb re_ok ps && existsb (fun p => re_match p s) ps
+    | Pats [p] => re_ok p && re_match p s
+    | Pats ps => existsb (fun p => re_match p s) (filter re_ok ps)
     end.
 
   (* RegexManager::matches with a fresh manager (the cache is the subject of C06) *)
@@ -379,9 +414,10 @@ Section WithRegex.
     match hostname with
     | None => false
     | Some h =>
-        match anchored_hostname_end h (r_host r) (s_wild sh) (at_hostname_end sh fs) with
-        | Some anchor_end =>
-            if nullb fs then Nat.eqb anchor_end (length (r_host r)) || suffixb h (r_host r)
+        (* without a pattern the hostname has to end the request hostname *)
+        match anchored_hostname_end h (r_host r) (s_wild sh) (nullb fs || s_la sh) with
+        | Some _ =>
+            if nullb fs then true
             else check_pattern_right_anchor_filter sh fs r
         | None => false
         end
@@ -516,30 +552,28 @@ Definition nondegenerate_fields (sh : shape) (filter : option str) (hostname : o
 Definition regex_nondegenerate (f : str) : bool :=
   no_backslash f && negb (has_double_caret f) && no_nl f.
 
-(* request well-formedness: the first occurrence of the hostname in the (lower-cased) URL is the
-   host, at offset [hs]; hostname bytes are not separators (no IPv6 literal); what follows the
-   host is the end of the URL or a separator (':' '/' '?' '#'); no line feed in the URL *)
+(* request well-formedness: searching from where get_url_after_anchor starts (after "://" and the
+   credentials) the first occurrence of the hostname in the lower-cased URL is the host, at offset
+   [hs]; the hostname is not empty and its bytes are not separators (no IPv6 literal); what follows
+   the host is the end of the URL or a separator (':' '/' '?' '#'); no line feed in the URL *)
 Definition wf_request (r : request) (hs : nat) : Prop :=
-  find_sub (r_host r) (lower_str (r_url r)) = Some hs /\
+  let url := lower_str (r_url r) in
+  (host_search_start url <= hs)%nat /\
+  find_sub (r_host r) (drop (host_search_start url) url) = Some (hs - host_search_start url)%nat /\
+  r_host r <> [] /\
   forallb (fun b => negb (is_sep b)) (r_host r) = true /\
-  (let post := drop (hs + length (r_host r)) (lower_str (r_url r)) in
+  (let post := drop (hs + length (r_host r)) url in
    post = [] \/ exists b t, post = b :: t /\ is_sep b = true) /\
   no_nl (r_url r) = true.
 Definition wf_requestb (r : request) (hs : nat) : bool :=
-  opt_eqb Nat.eqb (find_sub (r_host r) (lower_str (r_url r))) (Some hs)
+  let url := lower_str (r_url r) in
+  Nat.leb (host_search_start url) hs
+  && opt_eqb Nat.eqb (find_sub (r_host r) (drop (host_search_start url) url))
+                     (Some (hs - host_search_start url)%nat)
+  && negb (nullb (r_host r))
   && forallb (fun b => negb (is_sep b)) (r_host r)
-  && match drop (hs + length (r_host r)) (lower_str (r_url r)) with [] => true | b :: _ => is_sep b end
+  && match drop (hs + length (r_host r)) url with [] => true | b :: _ => is_sep b end
   && no_nl (r_url r).
-
-(* finding class: `||h^` (no pattern after the host): the parsed rule falls back on
-   `request.hostname.ends_with(h)` without a label-start test *)
-Definition suffix_mid_label (h host : str) : bool :=
-  suffixb h host
-  && negb (let o := (length host - length h)%nat in
-           Nat.eqb o 0 || head_is DOT h || N.eqb (nthb host (o - 1)) DOT).
-Definition suffix_mid_label_case (sh : shape) (filter : option str) (hostname : option str) (r : request) : bool :=
-  s_hn sh && s_ra sh && negb (s_la sh) && negb (s_rx sh)
-  && match filter, hostname with None, Some h => suffix_mid_label h (r_host r) | _, _ => false end.
 
 (* ====================================================================================== *)
 (* L1 — pattern part of NetworkFilter::parse (src/filters/network.rs) and                  *)
@@ -614,7 +648,7 @@ Definition parse_pattern (lk : left_kind) (right_pipe : bool) (pattern : str) : 
   let rx2 := match filter with Some f => check_is_regex f | None => rx1 end in
   let hostname' :=
     match hostname with
-    | Some h => Some (lower_str (if hn0 then trim_www (length h) h else h))
+    | Some h => let l := lower_str h in Some (if hn0 then trim_www (length l) l else l)
     | None => None
     end in
   {| pf_shape := {| s_hn := hn0; s_rx := rx2; s_cr := cr; s_la := la3; s_ra := ra1;
@@ -678,18 +712,6 @@ Definition host_right_pipe (line : str) : bool :=
         | KNone => false
         end.
 
-(* finding class: the parser strips "www." from the raw text and lower-cases afterwards, so
-   ||WWW.host keeps its www. label while ||www.host loses it *)
-Definition www_strip_case (line : str) : bool :=
-  let '(_, lk, rp, pattern) := split_line line in
-  match lk with
-  | KDouble =>
-      let cut := match find_first_sep pattern with Some i => i | None => length pattern end in
-      let h := take cut pattern in
-      negb (str_eqb (lower_str (trim_www (length h) h)) (trim_www (length h) (lower_str h)))
-  | _ => false
-  end.
-
 (* --- boolean comparison helpers for the correspondence cases *)
 Definition onat_eqb := opt_eqb Nat.eqb.
 Definition ostr_eqb := opt_eqb str_eqb.
@@ -727,13 +749,12 @@ Definition fields_agree (line : str) (mask : N) (filter hostname : option str) :
   && (if pf_ws pf then has mask M_FROM_WEBSOCKET else true).
 Definition text_tie (line : str) (mask : N) (filter hostname : option str) : bool :=
   let sh := shape_of_mask mask in
-  implb (nondegenerate_text line && negb (host_right_pipe line) && negb (www_strip_case line))
+  implb (nondegenerate_text line && negb (host_right_pipe line))
         (wf_fields sh filter hostname && nondegenerate_fields sh filter hostname
          && past_eqb (ast_of_fields sh filter hostname) (ast_of_text line)).
 (* the L0 reading of the text against the implementation's answer [impl], outside the carve-outs *)
 Definition text_ref_agrees (line : str) (mask : N) (filter hostname : option str)
            (r : request) (hs : nat) (impl : bool) : bool :=
-  implb (nondegenerate_text line && negb (host_right_pipe line) && negb (www_strip_case line) && wf_requestb r hs
-         && negb (suffix_mid_label_case (shape_of_mask mask) filter hostname r))
+  implb (nondegenerate_text line && negb (host_right_pipe line) && wf_requestb r hs)
         (Bool.eqb (ref_matchb (ast_of_text line) (lower_str (r_url r)) (r_host r) hs) impl).
 Definition len_in (s : str) (lens : list N) : bool := memN (N.of_nat (length s)) lens.
